@@ -166,6 +166,9 @@ func vC04Classify(pkt Packet, err error) vC04Result {
 
 type vC04Fail struct{ oracle, detail string }
 
+// operations that never returned; after a handful the driver stops exploring
+var vC04Hung int
+
 func vC04ParseReqs(l vSx) ([]vC04Req, bool) {
 	var reqs []vC04Req
 	for _, x := range l.l {
@@ -236,8 +239,9 @@ func vC04Run(c vSx) (vSx, []vC04Fail, bool) {
 		var r vC04Result
 		select {
 		case r = <-results:
-		case <-time.After(5 * time.Second):
-			bad("terminates", fmt.Sprintf("the reader did not finish decoding the response to request %d", k))
+		case <-time.After(3 * time.Second):
+			vC04Hung++
+			bad("reader-hung", fmt.Sprintf("the reader did not finish decoding the response to request %d", k))
 			return false
 		}
 		log = append(log, vL(vI(k), vI(r.code)))
@@ -322,8 +326,9 @@ func vC04Run(c vSx) (vSx, []vC04Fail, bool) {
 			var err error
 			select {
 			case err = <-done:
-			case <-time.After(10 * time.Second):
-				bad("terminates", fmt.Sprintf("WritePacket of request %d did not return", k))
+			case <-time.After(3 * time.Second):
+				vC04Hung++
+				bad("writer-hung", fmt.Sprintf("WritePacket of request %d did not return within 3 s (abandoned)", k))
 				valid = false
 			}
 			if (err != nil) != reqs[k].fail {
@@ -354,7 +359,12 @@ func vC04Run(c vSx) (vSx, []vC04Fail, bool) {
 		bad("table-exact", fmt.Sprintf("%d entries in the transaction table, %d requests are written and unanswered", tab, want))
 	}
 	close(rw.in)
-	<-readerDone
+	select {
+	case <-readerDone:
+	case <-time.After(3 * time.Second):
+		vC04Hung++
+		bad("reader-hung", "the reader goroutine did not end after the transport was closed (abandoned)")
+	}
 	if !valid {
 		return vL(vZ(-1)), fails, false
 	}
@@ -414,18 +424,34 @@ func vC04Free(n int) (vSx, []vC04Fail, bool) {
 			}
 		}
 	}()
-	for k := 0; k < n; k++ {
-		mu.Lock()
-		cur = k
-		mu.Unlock()
-		if err := p.WritePacket(vC04Request(reqs[k]), 0); err != nil {
-			fails = append(fails, vC04Fail{"write-result", err.Error()})
+	writerDone := make(chan bool)
+	var werrs []string
+	go func() {
+		defer close(writerDone)
+		for k := 0; k < n; k++ {
+			mu.Lock()
+			cur = k
+			mu.Unlock()
+			if err := p.WritePacket(vC04Request(reqs[k]), 0); err != nil {
+				werrs = append(werrs, err.Error())
+			}
 		}
-	}
+	}()
+	limit := time.Duration(3+n/200) * time.Second
 	select {
-	case <-readerDone:
-	case <-time.After(20 * time.Second):
-		fails = append(fails, vC04Fail{"terminates", "the reader did not receive all responses"})
+	case <-writerDone:
+		for _, e := range werrs {
+			fails = append(fails, vC04Fail{"write-result", e})
+		}
+		select {
+		case <-readerDone:
+		case <-time.After(limit):
+			vC04Hung++
+			return vL(vZ(-2)), append(fails, vC04Fail{"reader-hung", "the reader did not receive all responses (abandoned)"}), false
+		}
+	case <-time.After(limit):
+		vC04Hung++
+		return vL(vZ(-2)), append(fails, vC04Fail{"writer-hung", "the writer did not finish its requests (abandoned)"}), false
 	}
 	if nomatch > 0 {
 		fails = append(fails, vC04Fail{"no-spurious-nomatch", fmt.Sprintf("%d of %d responses found no matched request, e.g. %s", nomatch, n, firstErr)})
@@ -497,6 +523,9 @@ func TestVerifC04(t *testing.T) {
 	k := vNewKit(t, "C04")
 	defer k.close()
 	runOne := func(c vSx) {
+		if vC04Hung >= 4 {
+			return // a handful of hangs has been recorded: stop exploring
+		}
 		var obs vSx
 		var fails []vC04Fail
 		nt := false
